@@ -792,6 +792,25 @@ class Gen(object):
             return None
         return {"op": "doc_validate", "d": self.ref(d)}
 
+    def g_validate_keep(self):
+        x = self.pick(self.U.of_kind("doc", "sec"))
+        if x is None or len(self.U.validations) >= 4:
+            return None
+        return {"op": "validate_keep", "x": self.ref(x)}
+
+    def g_validate_rerun(self):
+        if not self.U.validations:
+            return self.g_validate_keep()
+        return {"op": "validate_rerun", "k": self.rng.randrange(len(self.U.validations)),
+                "report": self.chance(0.3)}
+
+    def g_validate_optional(self):
+        x = self.pick(self.U.objs)
+        if x is None:
+            return None
+        return {"op": "validate_optional", "x": self.ref(x),
+                "rule": self.pick(["section_repository_present", "property_terminology_check"])}
+
     def g_validate_custom(self):
         x = self.pick(self.U.objs)
         if x is None:
